@@ -784,9 +784,9 @@ def oracle(mode, ops, res):
             if o["reg"]:
                 left.append("the singleton variable still holds the context (qmi.start -> 'already started'%s)" % (
                     ", qmi.stop -> 'already inactive'" if not o["active"] else "; only qmi.stop() after the failed start recovers"))
-            nrpc_left = o["rpc"] - prev["rpc"] + (1 if k == "cstart" else 0)
+            nrpc_left = o["rpc"] - prev["rpc"] + (len(live_prev) if k == "cstart" else 0)
             if nrpc_left > 0:
-                left.append("the $context _RpcThread")
+                left.append("%d _RpcThread of the context's objects ($context)" % nrpc_left)
             if o["ev"] > prev["ev"]:
                 left.append("the router's _EventDrivenThread")
             if o["listen"] and not prev["listen"]:
@@ -1016,7 +1016,7 @@ def run(ck):
     ]
     _preload()
     rng = ck.rng
-    nrand = 900 if ck.tier == "quick" else 15000
+    nrand = 900 if ck.tier == "quick" else 8000
     hist = [(m, [tuple(o) for o in ops]) for m, ops in SCRIPTED]
     hist += [gen_history(rng) for _ in range(nrand)]
     jobs, meta = [], []
@@ -1082,7 +1082,7 @@ def run(ck):
 def run_conc(ck):
     """Concurrent part: remove_rpc_object / make_* in a second thread while the owner thread stops the context."""
     rng = ck.rng
-    nconf = 110 if ck.tier == "quick" else 2500
+    nconf = 110 if ck.tier == "quick" else 1200
     confs = [([(1, "obj", True, False)], ("remove", 1), 0), ([(1, "task", False, True), (2, "inst", True, True)], ("remove", 1), 1),
              ([(1, "obj", True, False)], ("make", 2, "obj", True, True, False), 0),
              ([(1, "obj", True, False)], ("make", 2, "task", True, False, True), 1)]
@@ -1099,7 +1099,7 @@ def run_conc(ck):
     # systematic: all schedules with <= 2 preemptions at synchronisation granularity of two short scenarios
     dfs = []
     for (pop, bop, nh) in confs[:1] + confs[2:3]:
-        nmax = 250 if ck.tier == "quick" else 4000
+        nmax = 250 if ck.tier == "quick" else 1500
         for res in dsched.explore_dfs(scenario_conc, (pop, bop, nh, False), preemption_bound=2, max_runs=nmax, nproc=16, wall_timeout=60.0):
             if res["status"] == "_summary":
                 ck.coverage.setdefault("conc_dfs", {})["%s/%s" % (bop[0], len(pop))] = {
